@@ -21,8 +21,9 @@ RULE = ('one evaluation = one seeded history dominated by operations that read o
         'reader\'s clock, expire() exact, lazy cull legality; non-trivial = at least one item expired during the run; distinct = '
         'SHA-256 of (configuration, program)')
 RULE += ' ' + "One seed in 101 lets a fresh interpreter (another operating-system process) store or touch the items that the check's process must then expire."
+RULE += ' ' + 'One seed in 101 runs expire() / cull() over 101-350 expired items while every clock reading is 4 ms - 30 s after the last.'
 ASSUMPTIONS = ['clock frozen within one operation; per-process skew is constant during a run']
-PROBES = ('cull_expired', 'page_boundary_crossed', 'expired_seen', 'other_os_process')
+PROBES = ('cull_expired', 'page_boundary_crossed', 'expired_seen', 'other_os_process', 'slow_clock')
 TECHNIQUE = 'deterministic simulation with a virtual clock (frozen ticks, jumps, per-process skew) + model-based checking of every lookup against the liveness rule'
 LEVEL_TEXT = ('seeded exploration of clock trajectories x ttl classes x populations under a simulated clock; each result is '
               'compared with the reference model whose only rule for visibility is expire_time > now. The property is about '
@@ -32,6 +33,12 @@ LEVEL_NOTE = 'trusted: reference model, SQLite, tmpfs; the skew is applied at th
 
 def gen_case(seed, tier):
     rng = random.Random('%s/c04' % seed)
+    if seed % 101 == 18:
+        # a slow machine (each clock reading is milliseconds after the last) and more expired items than one page: however long
+        # it takes, expire() / cull() remove every expired item and say how many
+        return {'seed': seed, 'cfg': {'kind': 'slowclock', 'n': rng.choice((101, 250, 350)), 'step': rng.choice((0.004, 0.5, 30.0)),
+                                      'timeout': rng.choice((0.01, 0.01, 60)), 'sweep': rng.choice(('expire', 'cull')),
+                                      'fanout': rng.random() < 0.4}, 'prog': []}
     if seed % 101 == 17:
         # housekeeping in one operating-system process, writers in another (a fresh interpreter): items the other process
         # stored with an expiry, or shortened with touch, are removed by this process's expire() / cull() once they are due
@@ -115,7 +122,45 @@ def run_xproc(case):
             'virtual_s': 0.0, 'nontrivial': True, 'outcome': {'ops': 4}}
 
 
+def run_slowclock(case):
+    from ..world import World
+    from ..seq import RawView
+    cfg = case['cfg']
+    violations = []
+    world = World(case['seed'], clock={'mode': 'frozen', 'epoch': 1600000000.0}, yield_clock=False)
+    sim = world.sim
+    try:
+        dc = world.dc
+        if cfg['fanout']:
+            cache = dc.FanoutCache(world.path('f'), shards=1, cull_limit=0)
+            inner = cache._shards[0]
+        else:
+            cache = inner = dc.Cache(world.path('c'), timeout=cfg['timeout'], cull_limit=0)
+        for i in range(cfg['n']):
+            cache.set('k%03d' % i, i, expire=1)
+        cache.set('live', 1, expire=10 ** 9)
+        sim.advance(3600)
+        sim.clockcfg = dict(sim.clockcfg, mode='slow', step=cfg['step'])
+        removed = getattr(cache, cfg['sweep'])()
+        sim.clockcfg = dict(sim.clockcfg, mode='frozen')
+        raw = RawView(inner.directory)
+        left = len(raw.rowids())
+        raw.close()
+        if removed != cfg['n'] or left != 1:
+            violations.append({'rule': 'C04/expired-not-removed', 'sig': 'slow-clock',
+                               'detail': '%d expired items, every clock reading %.3f s after the last (timeout %s): %s() -> %r, %d rows left (expected 1)'
+                                         % (cfg['n'], cfg['step'], cfg['timeout'], cfg['sweep'], removed, left)})
+        cache.close()
+    finally:
+        world.close()
+    digest = hashlib.sha256(json.dumps(case['cfg'], sort_keys=True).encode()).hexdigest()
+    return {'violations': violations, 'digest': digest, 'steps': cfg['n'], 'switches': 0, 'fired': {}, 'probes': {'slow_clock': 1, 'page_boundary_crossed': 1},
+            'virtual_s': 0.0, 'nontrivial': True, 'outcome': {'ops': cfg['n']}}
+
+
 def run_case(case):
+    if case['cfg'].get('kind') == 'slowclock':
+        return run_slowclock(case)
     if case['cfg'].get('kind') == 'xproc':
         return run_xproc(case)
     seen = {'n': 0}
